@@ -31,6 +31,17 @@ def gen_cases(ctx, n):
             cases.append({"id": cid, "preset": preset, "num_tune": nt, "num_draws": 3, "dim": 2,
                           "seed": 11 + cid, "maxdepth": 4})
             cid += 1
+    # flow presets: the final step-size window starts exactly on a scheduled update draw
+    # (multiples of 10 below draw 100, multiples of update_freq afterwards) and just beside one
+    for preset in FLOW:
+        for nt, ssw, upd in [(80, 0.25, 128), (40, 0.5, 128), (41, 0.5, 128), (400, 0.5, 50), (400, 0.5, 100),
+                             (300, 0.5, 50), (402, 0.5, 50), (20, 0.5, 7), (250, 0.2, 40)]:
+            c = {"id": cid, "preset": preset, "num_tune": nt, "num_draws": 2, "dim": 2, "seed": 500 + cid,
+                 "maxdepth": 3, "step_size_window": ssw, "update_freq": upd}
+            if preset == "flow_mclmc":
+                c["fixed_step"] = 0.25
+            cases.append(c)
+            cid += 1
     while len(cases) < n:
         preset = r.choice(EUCLID * 3 + FLOW)
         nt = r.choice(tune_pool) if r.random() < 0.7 else r.randint(0, 200)
